@@ -2,6 +2,7 @@
 package main
 
 import (
+	"bytes"
 	"fmt"
 	"runtime"
 	"strconv"
@@ -18,7 +19,7 @@ var lengthTargets = []int{9, 10, 11, 98, 99, 100, 101, 998, 999, 1000, 1001, 999
 
 func main() {
 	c := vk.Init("C01")
-	c.Rule("case i: PRNG(seed,i) draws template+population+values as in C17 (arbitrary or 8/9/35/10 framing tags, header/body/trailer empty or not); one String field is then padded so that BodyLength lands on a drawn target among {9,10,11,98..101,998..1001,9999..10001} and one byte nudged so that the checksum hits a drawn residue; plus every tests/fix44 type; every message object is then updated in place through its setters / AddEntry and serialized again. Oracle: fixref.CheckFrame on the emitted bytes alone. distinct = hash(shape, wire bytes); non-trivial = at least one populated non-framing field")
+	c.Rule("case i: PRNG(seed,i) draws template+population+values as in C17 (arbitrary or 8/9/35/10 framing tags, header/body/trailer empty or not); one String field is then padded so that BodyLength lands on a drawn target among {9,10,11,98..101,998..1001,9999..10001} and one byte nudged so that the checksum hits a drawn residue; plus every tests/fix44 type; every message object is then updated in place through its setters / AddEntry and serialized again (twice), and the slices handed out by the earlier ToBytes calls are re-read afterwards: they must not have been written to. Oracle: fixref.CheckFrame on the emitted bytes alone. distinct = hash(shape, wire bytes); non-trivial = at least one populated non-framing field")
 	c.Assume("fixref.CheckFrame (written from the FIX definition of BodyLength/CheckSum) is the trusted base")
 	n := c.Pick(20000, 1000000)
 	nf44 := c.Pick(200, 2000)
@@ -171,12 +172,24 @@ func main() {
 			}
 		}
 		m, _ = mp.Build()
-		wire, err, pan = gen.Serialize(m)
+		var handed [][2][]byte // slices handed out by earlier ToBytes calls on this object, with a copy taken at that time
+		var h0 []byte
+		h0, wire, err, pan = gen.SerializeKeep(m)
+		handed = append(handed, [2][]byte{h0, wire})
 		judge("template+steered", i, t.FT, t.Shape(), wire, err, pan, mp.Describe(), true, emp)
 		// the same message object, updated in place (setters on its existing values, new group entries) and serialized again
 		for round := 0; round < 2; round++ {
 			exp2, _ := gen.PopulateLib(r, m, oo, true)
-			wire, err, pan = gen.Serialize(m)
+			h0, wire, err, pan = gen.SerializeKeep(m)
+			// what an earlier ToBytes handed out (it may still be queued for sending) must not be written to by a later one
+			for k, hc := range handed {
+				c.Count("earlier_outputs_rechecked_after_a_later_serialization", 1)
+				if !bytes.Equal(hc[0], hc[1]) {
+					c.Violate("C01/earlier-output-overwritten-by-later-serialization", fmt.Sprintf("the bytes returned by ToBytes call #%d of one message object were changed by ToBytes call #%d on the same object (after in-place updates): they now read %s (framing oracle on them: %v)", k, len(handed), vk.Trunc(fixref.Pretty(hc[0]), 300), fixref.CheckFrame(t.FT, hc[0])), map[string]interface{}{"generator": "template+updated-in-place", "index": i, "seed": c.Seed, "was": vk.Trunc(fixref.Pretty(hc[1]), 600)})
+					break
+				}
+			}
+			handed = append(handed, [2][]byte{h0, wire})
 			var d2 []string
 			for _, e := range exp2 {
 				d2 = append(d2, e.Path+":"+e.String())
